@@ -1053,7 +1053,8 @@ theorem startsWithSlashes_trim (c : List Char) : startsWithSlashes (trim c) = st
 def SameComment (a b : Option (List Char)) : Prop :=
   match a, b with
   | none, none => True
-  | some c, some c' => trim c' = trim c ∧ hasNewline c' = hasNewline c
+  | some c, some c' => trim c' = trim c ∧ hasNewline c' = hasNewline c ∧
+      endsWithLineComment c' = endsWithLineComment c
   | _, _ => False
 
 /-- Two items that `definitive_tactic` cannot tell apart. -/
@@ -1062,14 +1063,14 @@ def SameMeasure (a b : ListItem) : Prop :=
 
 theorem sameComment_facts {a b : Option (List Char)} (h : SameComment a b) :
     commentLen b = commentLen a ∧ optAny hasNewline b = optAny hasNewline a ∧
-      optAny startsWithSlashes b = optAny startsWithSlashes a := by
+      optAny isOrEndsWithLineComment b = optAny isOrEndsWithLineComment a := by
   unfold SameComment at h
   cases a <;> cases b <;> simp only at h
   · simp
   · rename_i c c'
-    obtain ⟨h1, h2⟩ := h
+    obtain ⟨h1, h2, h3⟩ := h
     refine ⟨by simp [commentLen, h1], h2, ?_⟩
-    simp only [optAny]
+    simp only [optAny, isOrEndsWithLineComment, h3]
     rw [← startsWithSlashes_trim c', ← startsWithSlashes_trim c, h1]
 
 theorem sameMeasure_facts {a b : ListItem} (h : SameMeasure a b) :
@@ -1301,7 +1302,8 @@ theorem splitGaps_mem (ps : List Piece) : ∀ g ∈ splitGaps ps, ∀ p ∈ g, p
 def CommentKept (a b : Option (List Char)) : Prop :=
   match a, b with
   | none, none => True
-  | some c, some c' => trim c' = trim c ∧ (hasNewline c = false → hasNewline c' = false)
+  | some c, some c' => trim c' = trim c ∧ (hasNewline c = false → hasNewline c' = false) ∧
+      endsWithLineComment c' = endsWithLineComment c
   | _, _ => False
 
 def ItemKept (a b : ListItem) : Prop :=
@@ -1309,14 +1311,14 @@ def ItemKept (a b : ListItem) : Prop :=
 
 theorem commentKept_facts {a b : Option (List Char)} (h : CommentKept a b) :
     commentLen b = commentLen a ∧ (optAny hasNewline a = false → optAny hasNewline b = false) ∧
-      optAny startsWithSlashes b = optAny startsWithSlashes a := by
+      optAny isOrEndsWithLineComment b = optAny isOrEndsWithLineComment a := by
   unfold CommentKept at h
   cases a <;> cases b <;> simp only at h
   · simp
   · rename_i c c'
-    obtain ⟨h1, h2⟩ := h
+    obtain ⟨h1, h2, h3⟩ := h
     refine ⟨by simp [commentLen, h1], h2, ?_⟩
-    simp only [optAny]
+    simp only [optAny, isOrEndsWithLineComment, h3]
     rw [← startsWithSlashes_trim c', ← startsWithSlashes_trim c, h1]
 
 theorem itemKept_facts {a b : ListItem} (h : ItemKept a b) :
